@@ -406,11 +406,21 @@ def check_r5(facts, rep, crate, inter):
                     any(x.kind == "call" and x[6] in ("poll_recv", "recv", "try_recv") for x in walk(g.pred)) else None)
                 loop = in_cycle_without(cb, cbi, set())
                 cw = "%s (%s)" % (loc_str(ct["loc"]), cb.path)
-                if some and not loop:
-                    rep.ok(rid, "counter-callers", cw, "called once, on the Some edge of the inbound receive, outside any loop")
+                # the call must also be unconditional on that edge: every path from the Some edge to a return passes it
+                uncond = False
+                if some:
+                    gb0 = some[0][0]
+                    g0 = guard_at(facts, cb, ctr, gb0)
+                    ssucc = [s2 for s2, v in g0.edges if v == "Some"]
+                    rets0 = [x for x in range(len(cb.blocks)) if cb.term(x)["k"] == "Return"]
+                    if ssucc:
+                        reach0 = cb.reachable_from(ssucc[0], cut={cbi})
+                        uncond = not any(r in reach0 for r in rets0)
+                if some and not loop and uncond:
+                    rep.ok(rid, "counter-callers", cw, "called once, unconditionally on the Some edge of the inbound receive, outside any loop")
                 else:
                     rep.bad(rid, "counter-callers", cw, "the counting function is not called exactly once per received frame "
-                                                         "(Some-edge dominated: %s, inside a loop: %s)" % (bool(some), loop))
+                                                         "(Some-edge dominated: %s, inside a loop: %s, unconditional: %s)" % (bool(some), loop, uncond))
     rep.floor(rid, "consumed-frames Acknowledge emissions", n, 1)
 
 
